@@ -130,6 +130,7 @@ Lemma downgrade_refused_lemma : forall (es : list migration) fuel enabled c (s :
   (snd r = RRefusedDowngrade \/ snd r = RRefusedOptOut) /\ ms_p (fst r) = s /\ ms_trace (fst r) = [].
 Proof.
   intros. subst r. unfold run_boot.
+  destruct (beyond_registry _ _ _); simpl; auto.
   destruct (opt_out_attempt _ _ _); simpl; auto.
   rewrite (vcontains_false _ _ i H H0). simpl. auto.
 Qed.
@@ -144,35 +145,65 @@ Proof.
   apply target_bits_registered in E. lia.
 Qed.
 
-Lemma optout_refused_lemma : forall (es : list migration) fuel enabled c (s : pstate) i,
-  i < length es -> vhas (last s) i = true -> vhas (target_version es enabled) i = false ->
-  let r := run_boot es fuel enabled c s in
-  snd r = RRefusedOptOut /\ ms_p (fst r) = s /\ ms_trace (fst r) = [].
+Lemma beyond_registry_true : forall t l n i,
+  n <= i -> i < max_migrations -> vhas l i = true -> vhas t i = false -> beyond_registry t l n = true.
 Proof.
-  intros. subst r. unfold run_boot.
-  assert (E : opt_out_attempt (target_version es enabled) (last s) (length es) = true).
-  { unfold opt_out_attempt. apply existsb_exists. exists i. split.
-    - apply in_seq. lia.
-    - rewrite vhas_vdiff, H0, H1. reflexivity. }
-  rewrite E. simpl. auto.
+  intros. unfold beyond_registry. apply existsb_exists. exists i. split.
+  - apply in_seq. lia.
+  - rewrite vhas_vdiff, H1, H2. reflexivity.
 Qed.
 
-(* an accepted boot: the target covers every applied bit and every registered opted-in bit *)
+Lemma opt_out_attempt_true : forall t l n i,
+  i < n -> vhas l i = true -> vhas t i = false -> opt_out_attempt t l n = true.
+Proof.
+  intros. unfold opt_out_attempt. apply existsb_exists. exists i. split.
+  - apply in_seq. lia.
+  - rewrite vhas_vdiff, H0, H1. reflexivity.
+Qed.
+
+(* any bit (of the uint64) that an earlier run targeted and the present target lacks: refused,
+   whether or not the present registry knows the migration *)
+Lemma optout_refused_lemma : forall (es : list migration) fuel enabled c (s : pstate) i,
+  i < max_migrations -> vhas (last s) i = true -> vhas (target_version es enabled) i = false ->
+  let r := run_boot es fuel enabled c s in
+  (snd r = RRefusedOptOut \/ snd r = RRefusedDowngrade) /\ ms_p (fst r) = s /\ ms_trace (fst r) = [].
+Proof.
+  intros. subst r. unfold run_boot.
+  destruct (beyond_registry _ _ _) eqn:E0; simpl; auto.
+  destruct (Nat.lt_ge_cases i (length es)) as [Hi|Hi].
+  - rewrite (opt_out_attempt_true _ _ _ i Hi H0 H1). simpl. auto.
+  - rewrite (beyond_registry_true _ _ _ i Hi H H0 H1) in E0. discriminate.
+Qed.
+
+(* a binary that does not have a migration which an earlier run opted into (finished or not) *)
+Lemma lacking_opted_in_refused_lemma : forall (es : list migration) fuel enabled c (s : pstate) i,
+  length es <= i -> i < max_migrations -> vhas (last s) i = true ->
+  let r := run_boot es fuel enabled c s in
+  snd r = RRefusedDowngrade /\ ms_p (fst r) = s /\ ms_trace (fst r) = [].
+Proof.
+  intros. subst r. unfold run_boot.
+  assert (Ht : vhas (target_version es enabled) i = false).
+  { destruct (vhas (target_version es enabled) i) eqn:E; auto. apply target_bits_registered in E. lia. }
+  rewrite (beyond_registry_true _ _ _ i H H0 H1 Ht). simpl. auto.
+Qed.
+
+(* an accepted boot: the target covers every applied bit and every opted-in bit *)
 Lemma accepted_sound_lemma : forall (es : list migration) fuel enabled c (s : pstate),
   let r := run_boot es fuel enabled c s in
   snd r <> RRefusedOptOut -> snd r <> RRefusedDowngrade ->
   (forall i, vhas (cur s) i = true -> vhas (target_version es enabled) i = true) /\
-  (forall i, i < length es -> vhas (last s) i = true -> vhas (target_version es enabled) i = true).
+  (forall i, i < max_migrations -> vhas (last s) i = true -> vhas (target_version es enabled) i = true).
 Proof.
   intros es fuel enabled c s r H1 H2. subst r. unfold run_boot in *.
+  destruct (beyond_registry _ _ _) eqn:E0; simpl in *; try congruence.
   destruct (opt_out_attempt _ _ _) eqn:E1; simpl in *; try congruence.
   destruct (vcontains _ _) eqn:E2; simpl in *; try congruence.
   split.
   - apply vcontains_true; auto.
   - intros i Hi Hl. destruct (vhas (target_version es enabled) i) eqn:Ht; auto.
-    assert (opt_out_attempt (target_version es enabled) (last s) (length es) = true).
-    { apply existsb_exists. exists i. split. apply in_seq; lia. rewrite vhas_vdiff, Hl, Ht. reflexivity. }
-    congruence.
+    destruct (Nat.lt_ge_cases i (length es)) as [Hr|Hr].
+    + rewrite (opt_out_attempt_true _ _ _ i Hr Hl Ht) in E1. discriminate.
+    + rewrite (beyond_registry_true _ _ _ i Hr Hi Hl Ht) in E0. discriminate.
 Qed.
 
 (* ---- event log facts ---- *)
@@ -253,6 +284,7 @@ Lemma applied_only_if_complete_lemma : forall (es : list migration) fuel enabled
   applied_after_done (ms_log st) = true.
 Proof.
   intros es fuel enabled c s st r WB H. unfold run_boot in H.
+  destruct (beyond_registry _ _ _). { inversion H; subst; auto. }
   destruct (opt_out_attempt _ _ _). { inversion H; subst; auto. }
   destruct (vcontains _ _); cbn [negb] in H. 2:{ inversion H; subst; auto. }
   destruct (bits_of _) eqn:Eb. { inversion H; subst; auto. }
@@ -368,6 +400,8 @@ Lemma bits_only_from_applied_lemma : forall (es : list migration) fuel enabled c
   forall j, vhas (cur p) j = true -> vhas (cur s) j = true \/ In j (applied_events (ms_log st)).
 Proof.
   intros es fuel enabled c s st r H p Hp j Hj. unfold run_boot in H.
+  destruct (beyond_registry _ _ _).
+  { inversion H; subst; simpl in *. destruct Hp as [Hp|[]]; subst; auto. }
   destruct (opt_out_attempt _ _ _).
   { inversion H; subst; simpl in *. destruct Hp as [Hp|[]]; subst; auto. }
   destruct (vcontains _ _); cbn [negb] in H.
@@ -429,6 +463,8 @@ Lemma once_in_order_lemma : forall (es : list migration) fuel enabled c (s : pst
 Proof.
   intros es fuel enabled c s st r H pend. split. { apply bits_of_sorted. }
   unfold run_boot in H.
+  destruct (beyond_registry _ _ _).
+  { inversion H; subst; simpl. split. exists pend; auto. discriminate. }
   destruct (opt_out_attempt _ _ _).
   { inversion H; subst; simpl. split. exists pend; auto. discriminate. }
   destruct (vcontains _ _); cbn [negb] in H.
